@@ -27,7 +27,7 @@ pub fn def() -> PropDef {
     PropDef {
         id: "C06",
         level: "fault_enumeration",
-        rule: "every history of <= d operations over {insert a/ab/a\\xff, delete prefix a/'', remote older, remote newer, flush, snapshot-read, remove document, re-create document} (family A) and over {register peer 1/2, set policy 1/2, insert a, remove, re-create, flush} (family B) and, after filling the useful-peer cache to its capacity, over {register a new peer 1/2, the oldest / the newest cached peer again, insert a, flush} (family C) and, after 1100 entries below the prefix 'a' have been made durable, over {insert a, delete prefix a, delete prefix '', insert ab, flush} (family D: one operation supersedes more than a thousand entries) on a file-backed store; family E drives a file-backed store through its store actor: every history of <= d requests over {insert a, insert ab, delete prefix a, flush_store, a pause of 150 ms} issued back to back on one handle, the file copied right after every acknowledged flush must hold exactly the writes acknowledged before it, and so must the file after shutdown; one scenario kills a whole node (Docs engine with a file-backed store) right after its first start and starts it again from the directory as it was; for families A-D a baseline run numbers every store access point (hook at Store::tables/modify); then every placement of <= k 'transaction looks older than the commit delay' answers among the points where a write transaction is open, and in every such run a crash image (copy of the database file, live store untouched) at every access point and after every operation; each distinct image is reopened and must show the reference state after j complete operations with last-acknowledged-flush <= j <= operations-started, with records, by-key index, heads, point lookups, namespaces and authors mutually consistent; non-trivial = distinct (image content, window) pairs whose window spans an unacknowledged or in-progress operation",
+        rule: "every history of <= d operations over {insert a/ab/a\\xff, delete prefix a/'', remote older, remote newer, flush, snapshot-read, remove document, re-create document} (family A) and over {register peer 1/2, set policy 1/2, insert a, remove, re-create, flush} (family B) and, after filling the useful-peer cache to its capacity, over {register a new peer 1/2, the oldest / the newest cached peer again, insert a, flush} (family C) and, after 1100 entries below the prefix 'a' have been made durable, over {insert a, delete prefix a, delete prefix '', insert ab, flush} (family D: one operation supersedes more than a thousand entries) on a file-backed store; family E drives a file-backed store through its store actor: every history of <= d requests over {insert a, insert ab, delete prefix a, flush_store, a pause of 150 ms, a complete reconciliation session that brings in one entry} issued back to back on one handle, the file copied right after every acknowledged flush must hold exactly the writes acknowledged before it, and so must the file after shutdown; one scenario kills a whole node (Docs engine with a file-backed store) right after its first start and starts it again from the directory as it was; for families A-D a baseline run numbers every store access point (hook at Store::tables/modify); then every placement of <= k 'transaction looks older than the commit delay' answers among the points where a write transaction is open, and in every such run a crash image (copy of the database file, live store untouched) at every access point and after every operation; each distinct image is reopened and must show the reference state after j complete operations with last-acknowledged-flush <= j <= operations-started, with records, by-key index, heads, point lookups, namespaces and authors mutually consistent; non-trivial = distinct (image content, window) pairs whose window spans an unacknowledged or in-progress operation",
         assumptions: &[
             "crash = process kill: the image is what the OS holds for the file at that instant; power loss, torn sectors and crashes inside redb's own commit are redb's contract",
             "an extra age-based commit caused by real elapsed time can only move the recovered state forward inside the accepted window, never raise an alarm",
@@ -645,9 +645,12 @@ pub enum AOp {
     Flush,
     /// let 150 ms of real time pass (flushes that are close together vs. apart)
     Pause,
+    /// a complete reconciliation session with a peer that holds one entry the node lacks: the
+    /// entry enters through `sync_process_message` (no local write, no single remote insert)
+    SyncIn,
 }
 
-const AOPS: [AOp; 5] = [AOp::InsA, AOp::InsAb, AOp::DelA, AOp::Flush, AOp::Pause];
+const AOPS: [AOp; 6] = [AOp::InsA, AOp::InsAb, AOp::DelA, AOp::Flush, AOp::Pause, AOp::SyncIn];
 
 fn actor_history(hist: &[AOp]) -> Vec<(&'static str, Value, String)> {
     use crate::sut::block_on;
@@ -661,11 +664,39 @@ fn actor_history(hist: &[AOp]) -> Vec<(&'static str, Value, String)> {
     sut.store.import_author(author(0)).expect("author");
     sut.store.flush().expect("flush");
     let h = SyncHandle::spawn(sut.store, None, "c06-actor".into());
-    block_on(h.open(ns, OpenOpts::default())).expect("open");
+    block_on(h.open(ns, OpenOpts::default().sync())).expect("open");
     let mut model = ModelReplica::default();
     for (i, op) in hist.iter().enumerate() {
         let ts = T0 + 10 + i as u64;
         match op {
+            AOp::SyncIn => {
+                let e = SignedEntry::from_parts(&ns_secret(0), &author(1), format!("r{i}").as_bytes(), iroh_docs::sync::Record::new(Val::Y.hash_len().0, 1, T0 + 500 + i as u64));
+                let mut peer = Sut::memory_with(&[0]);
+                let _ = peer.remote(ns, e.clone());
+                let mut st_p = iroh_docs::SyncOutcome::default();
+                let mut st_h = iroh_docs::SyncOutcome::default();
+                let mut msg = peer.sync_initial(ns).ok();
+                let mut rounds = 0;
+                while let Some(m) = msg.take() {
+                    rounds += 1;
+                    if rounds > 40 {
+                        break;
+                    }
+                    match block_on(h.sync_process_message(ns, m, crate::sut::PEER, std::mem::take(&mut st_h))) {
+                        Ok((reply, s2)) => {
+                            st_h = s2;
+                            match reply {
+                                Some(r) => msg = peer.sync_process(ns, r, [9u8; 32], &mut st_p).ok().flatten(),
+                                None => break,
+                            }
+                        }
+                        Err(_) => break,
+                    }
+                }
+                if block_on(crate::sut::handle_dump(&h, ns)).map(|d| d.contains(&e)).unwrap_or(false) {
+                    model.put(&e);
+                }
+            }
             AOp::InsA | AOp::InsAb | AOp::DelA => {
                 let cop = match op {
                     AOp::InsA => Op::InsA,
@@ -768,7 +799,7 @@ fn run_actor_family(ctx: &Ctx, report: &mut Report, ordinal: &mut u64) {
         for_each_sequence(AOPS.len(), d, |seq| {
             let hist: Vec<AOp> = seq.iter().map(|&i| AOPS[i]).collect();
             // histories that end with a flush and hold a write (the others are prefixes of those)
-            if hist.last() != Some(&AOp::Flush) || !hist.iter().any(|o| matches!(o, AOp::InsA | AOp::InsAb | AOp::DelA)) {
+            if hist.last() != Some(&AOp::Flush) || !hist.iter().any(|o| matches!(o, AOp::InsA | AOp::InsAb | AOp::DelA | AOp::SyncIn)) {
                 return;
             }
             if hist.iter().filter(|o| matches!(o, AOp::Pause)).count() > 1 {
